@@ -396,6 +396,31 @@ def timed_weight(b, delta_ticks, delta_mean):
     return F(float(b["power"]) ** x)
 
 
+class Exactness:
+    """Set as MON while a SPEC is evaluated: records whether every intermediate value is a dyadic rational small
+    enough for the float64 kernel stage (v64) and the float32 matrix stage (v32: multiples of 2^-10 below 2^12, so
+    every partial sum of non-negative terms, in any order, fits the 24-bit significand).  IEEE operations whose exact
+    result is representable do not round, so on such a trace the implementation's floats equal the exact fractions."""
+    def __init__(self):
+        self.ok = True
+
+    def v64(self, x):
+        d = F(x).denominator
+        if d & (d - 1) or d > 2 ** 20 or abs(x) >= 2 ** 20:
+            self.ok = False
+
+    def v32(self, x):
+        d = F(x).denominator
+        if d & (d - 1) or d > 2 ** 10 or abs(x) >= 2 ** 12:
+            self.ok = False
+
+    def fail(self):
+        self.ok = False
+
+
+MON = None
+
+
 def occ_contrib(M, n, row, per_block, nw):
     """per_block: list of dicts slot -> (context token, weight incl. mix).  Adds val = w/total for val > 0."""
     tot = F(1)
@@ -406,6 +431,8 @@ def occ_contrib(M, n, row, per_block, nw):
     for i, blk in enumerate(per_block):
         for ctx, w in blk.values():
             v = w / tot
+            if MON is not None:
+                MON.v32(v)
             if v > 0:
                 M[(row, ctx + i * n)] = M.get((row, ctx + i * n), F(0)) + v
                 if v.denominator > M.get("maxden", 1):
@@ -413,11 +440,20 @@ def occ_contrib(M, n, row, per_block, nw):
 
 
 def norm_block(b, raw):
+    if MON is not None:
+        if b["kind"] == "geometric" and b["power"].numerator != 1:
+            MON.fail()            # pow() is only relied upon for powers of two
+        for _, v in raw.values():
+            MON.v64(v)
     if b["norm"]:
         s = sum((v for _, v in raw.values()), F(0))
         if s > 0:
             raw = {q: (c, v / s) for q, (c, v) in raw.items()}
-    return {q: (c, b["mix"] * v) for q, (c, v) in raw.items()}
+    out = {q: (c, b["mix"] * v) for q, (c, v) in raw.items()}
+    if MON is not None:
+        for _, v in list(raw.values()) + list(out.values()):
+            MON.v64(v)
+    return out
 
 
 def occurrences(p, radii):
@@ -448,6 +484,8 @@ def occurrences(p, radii):
                             v = F(0)
                         elif kind == "timed":
                             v = timed_weight(b, abs(d[q][1] - d[anchor][1]), p["delta_mean"])
+                            if MON is not None and b["kind"] != "flat":
+                                MON.fail()
                             if v is None:
                                 return None          # mean gap 0 with a geometric kernel: the definition divides by 0
                         else:
